@@ -184,6 +184,14 @@ def canon_line(l):
     cannot be opened (404 not found, 404 invalid name, 500 name too long — their precedence depends on
     net/http and os details such as UTF-8 validation before the open) is not part of the property and not
     modelled precisely"""
+    m = re.match(r"down param=([0-9a-f]*) ", l)
+    if m:
+        try:
+            bytes.fromhex(m.group(1)).decode("utf8")
+        except UnicodeDecodeError:
+            # http.Dir.Open refuses names that are not valid UTF-8 (io/fs.ValidPath) whether the file exists or not:
+            # nothing is served; the model has no notion of UTF-8 (found by the thorough tier as a tie difference)
+            return "down param=%s code=name-not-utf8" % m.group(1)
     if l.startswith("down ") and l.endswith(" body=-"):
         return re.sub(r" code=(404|500) body=-$", " code=nothing-served body=-", l)
     return l
